@@ -136,6 +136,7 @@ def oracle_string(case):
     dd = DefinitionDict(case["defs"], sch) if case["defs"] else None
     text = case["text"]
     results = {}
+    handlers = {}
     for w in (True, False):
         hs = HedString(text, sch, def_dict=dd)
         plain = hs.validate(allow_placeholders=case["allow_placeholders"],
@@ -145,6 +146,7 @@ def oracle_string(case):
         h.push_error_context(ErrorContext.HED_STRING, hs2)
         ctx = hs2.validate(allow_placeholders=case["allow_placeholders"], error_handler=h)
         results[w] = (plain, ctx)
+        handlers[w] = h
     n_off = 0
     for w, (plain, ctx) in results.items():
         for name, issues in (("string-default", plain), ("string-context", ctx)):
@@ -156,7 +158,7 @@ def oracle_string(case):
             out.bad("context-handler-changes-codes", f"{text!r}")
     # independent expectation for character-level issues: in an otherwise valid annotation every flagged character
     # must be one of the characters the mutation injected
-    known_bad = {"ext_bad_char": "$=@%!", "value_bad_name_char": "$ .+@=", "placeholder_not_allowed": "#",
+    known_bad = {"ext_bad_char": "$=@%!", "value_bad_name_char": "$ .+@=", "def_value_bad_char": "$=@%!", "placeholder_not_allowed": "#",
                  "forbidden_char": "[]~{}\x07\u00e9"}
     bad_chars = known_bad.get(case.get("mutation"))
     if bad_chars:
@@ -170,6 +172,16 @@ def oracle_string(case):
     check_subset(results[True][1], results[False][1], out, "string-context")
     out.nontrivial = len(results[True][1]) >= 2 and n_off > 0
     out.classes = (("has-offsets",) if n_off else ()) + (("mutation:" + str(case.get("mutation")),))
+    # last (it changes the issue objects): the same issues handed to the context decoration once more, as a caller
+    # collecting issues from several layers does - message and offsets must stay as they are
+    for w, (plain, ctx) in results.items():
+        before = [(x["message"], x.get("char_index"), x.get("char_index_end")) for x in ctx]
+        handlers[w].add_context_and_filter(ctx)
+        after = [(x["message"], x.get("char_index"), x.get("char_index_end")) for x in ctx]
+        if before != after:
+            k = next(k for k in range(len(before)) if k >= len(after) or before[k] != after[k])
+            out.bad("second-decoration-changes-issue", f"{before[k]} -> {after[k] if k < len(after) else None}")
+            break
     return out
 
 
